@@ -243,8 +243,21 @@ def removeOrphanedGradients (defsUid : Nat) : DocM Unit := do
   r := Node.updateUid r defsUid (fun d => d.setChildren (d.children.filter (fun k => !k.isLxmlNode || isGradientTag k.tag)))
   setRoot r
 
+/-- opacity on the root is handed to a group around all of the root's children -/
+def rootOpacityToGroup : DocM Unit := do
+  let root ← getRoot
+  match root.getAttr "opacity" with
+  | none => pure ()
+  | some op =>
+    let root1 := root.setAttrs (root.attrs.del "opacity")
+    if (root.children.filter Node.isLxmlNode).isEmpty then setRoot root1
+    else
+      let gu ← freshUid
+      setRoot (root1.setChildren [.elem gu (Node.svgTag "g") [("opacity", op)] root.children])
+
 /-- `_simplify()` -/
 def simplifyCore : DocM Unit := do
+  rootOpacityToGroup
   let root ← getRoot
   let rootAttrib ← liftE (attribToPassOn Gen.inheritableAttribDefaults root.attrs)
   let ctxs ← bfsClips (Traverse.nodeCount root * 4 + 16)
